@@ -236,14 +236,21 @@ where
 
         let welcome_preview = self.preview_welcome(wrapper_event_id, rumor_event)?;
 
+        let mls_group_id: crate::GroupId = welcome_preview
+            .staged_welcome
+            .group_context()
+            .group_id()
+            .clone()
+            .into();
+
+        // A record may already exist for this MLS group id (the user was a member before and
+        // is invited again). The messages of that earlier membership stay stored, so the
+        // last-message pointer has to stay with them.
+        let existing = self.get_group(&mls_group_id)?;
+
         // Create a pending group
         let group = group_types::Group {
-            mls_group_id: welcome_preview
-                .staged_welcome
-                .group_context()
-                .group_id()
-                .clone()
-                .into(),
+            mls_group_id: mls_group_id.clone(),
             nostr_group_id: welcome_preview.nostr_group_data.nostr_group_id,
             name: welcome_preview.nostr_group_data.name.clone(),
             description: welcome_preview.nostr_group_data.description.clone(),
@@ -257,9 +264,9 @@ where
                 .image_nonce
                 .map(mdk_storage_traits::Secret::new),
             admin_pubkeys: welcome_preview.nostr_group_data.admins.clone(),
-            last_message_id: None,
-            last_message_at: None,
-            last_message_processed_at: None,
+            last_message_id: existing.as_ref().and_then(|g| g.last_message_id),
+            last_message_at: existing.as_ref().and_then(|g| g.last_message_at),
+            last_message_processed_at: existing.as_ref().and_then(|g| g.last_message_processed_at),
             epoch: welcome_preview
                 .staged_welcome
                 .group_context()
@@ -269,13 +276,11 @@ where
             self_update_state: group_types::SelfUpdateState::Required,
         };
 
-        let mls_group_id = group.mls_group_id.clone();
-
         // An invitation is untrusted input that has not been consented to: it must never
         // overwrite the record (state, Nostr group id, admins, relays, last message) of a
         // group the user is already an active member of.
-        let already_active = self
-            .get_group(&mls_group_id)?
+        let already_active = existing
+            .as_ref()
             .is_some_and(|existing| existing.state == group_types::GroupState::Active);
 
         if already_active {
